@@ -4,6 +4,9 @@ import vlib, zoogen
 from vlib import ToolError
 
 
+LAST_CODE = ""
+
+
 def pipeline(texts, workdir, tag="m"):
     """texts: list of module texts resolved together. Returns list of per-definition dicts (or raises ToolError)."""
     files = []
@@ -20,6 +23,8 @@ def pipeline(texts, workdir, tag="m"):
     files = [r for r in rows if "file" in r]
     rows = [r for r in rows if "file" not in r]
     code = "\n".join(f["code"] for f in files)
+    global LAST_CODE
+    LAST_CODE = code          # the complete generated file(s): value assignments live there, not in a definition
     # all impl blocks per definition from the complete generated file (accessors live there)
     impls = {}
     for m in re.finditer(r"^impl (\w+) \{.*?^\}", code, re.S | re.M):
